@@ -30,6 +30,19 @@ for p in $props; do
       echo "SELFTEST-FAIL $(basename $m): rc=$rc, expected obligation '$exp' not reported"; echo "$out" | grep -v '^   ' | tail -4; fail=1
     fi
   done
+  # changes seeded by independent sub-agents (seeded/<id>/patch.diff, expected obligation in seeded/<id>/expect)
+  for m in seeded/${p}*/patch.diff; do
+    [ -f "$m" ] || continue
+    exp=$(cat "$(dirname $m)/expect" 2>/dev/null)
+    if ! git -C "$REPO" apply "$PWD/$m" 2>/dev/null; then echo "SELFTEST-FAIL $m does not apply"; fail=1; continue; fi
+    out=$(./check $p quick 2>&1); rc=$?
+    git -C "$REPO" checkout -- .
+    if [ $rc -eq 1 ] && echo "$out" | grep -q "VIOLATION property=$p" && echo "$out" | grep -qF "$exp"; then
+      echo "ok   $m: detected ($exp)"
+    else
+      echo "SELFTEST-FAIL $m: rc=$rc, expected obligation '$exp' not reported"; echo "$out" | grep -v '^   ' | tail -4; fail=1
+    fi
+  done
   for m in selftest/harmless/${p}_*.patch; do
     [ -f "$m" ] || continue
     if ! git -C "$REPO" apply "$PWD/$m" 2>/dev/null; then echo "SELFTEST-FAIL $m does not apply"; fail=1; continue; fi
